@@ -19,6 +19,8 @@ pub struct Report {
     pub started: Instant,
     pub evaluations: u64,
     pub distinct: BTreeSet<u64>,
+    /// distinct non-trivial cases counted by child processes (their own hash sets)
+    pub distinct_extra: u64,
     pub rule: String,
     pub samples: Vec<Value>,
     pub max_samples: usize,
@@ -36,6 +38,7 @@ impl Report {
             started: Instant::now(),
             evaluations: 0,
             distinct: BTreeSet::new(),
+            distinct_extra: 0,
             rule: rule.to_string(),
             samples: Vec::new(),
             max_samples: 4,
@@ -124,7 +127,7 @@ impl Report {
         json!({
             "engine": self.engine,
             "evaluations": self.evaluations,
-            "distinct_nontrivial": self.distinct.len(),
+            "distinct_nontrivial": self.distinct.len() as u64 + self.distinct_extra,
             "rule": self.rule,
             "samples": self.samples,
             "violations": violations,
